@@ -503,7 +503,7 @@ pub fn minimise(rf: &mut ReplayFile, outp: &str) -> i32 {
         Err(_) => return 2,
     };
     silence_panics();
-    let (m, used) = crate::tmin::minimise(&sc, &rf.class, 1500);
+    let (m, used) = crate::tmin::minimise(&sc, &rf.class, 3000);
     let v = exec(&m);
     if let Some(x) = &v.violation {
         rf.detail = x.detail.clone();
